@@ -713,6 +713,8 @@ class Machine:
         m = self._copy_model(gi)
         ci = self.new_obj(o['kind'], c, m)
         self.__dict__.setdefault('copy_pairs', []).append((gi, ci))
+        if hasattr(c, 'factors'):
+            self.__dict__.setdefault('copy_made_factors', []).extend((f_, ci) for f_ in c.factors.values())
         if 'rules' in m:
             # rhs graphs of the copy are new, independently mutable objects
             real_rules = c.all_rules()
@@ -1175,6 +1177,12 @@ class Machine:
         w = fac.weights
         self.c.inc('fault.mutate-after-share.fired')
         w.physical.mul_(2)
+
+        def made_by(fobj):
+            for c_, call_ in self.__dict__.get('copy_made_factors', []):
+                if c_ is fobj:
+                    return call_
+            return None
         # whose model changes?  exactly the objects that hold this very factor object
         for o in self.objs:
             if 'factors' in o['model']:
@@ -1188,10 +1196,11 @@ class Machine:
             if 'factors' in o['model']:
                 for ent in o['model']['factors']:
                     other = o['real'].factors.get(ent[0])
-                    # (only factor objects the caller itself built over the same weights object share it legitimately; the
-                    #  factors of a copy are objects the library made and must be independent)
+                    # (factor objects built over the same weights object share it legitimately: caller-built ones among
+                    #  themselves, and the factors one copy() call made among themselves -- a deep copy preserves sharing inside
+                    #  the copy -- but never a copy's factor with a factor outside that copy)
                     if other is not None and other is not fac and getattr(other, 'weights', None) is fac.weights \
-                            and any(other is f_['real'] for f_ in self.facs):
+                            and made_by(other) == made_by(fac):
                         ent[1] = M.s_factor(other)
         return (oi, None, 'ok', False)
 
